@@ -441,6 +441,37 @@ def check(ctx):
                     ctx.oblige("R-C12.3", f"{m.name}:{n.lineno}:{cn}", ok, nontrivial=False)
                     if not ok:
                         viol("R-C12.3", m, "<module>", n, f"AST node {cn} is created at import time / as a default argument: every parse would return the same node object")
+    # ... and no mutable object that lives at module level is built INTO a tree: a list / dict / set bound at module level that flows into a
+    # constructor field, a builder argument or a returned value would be one object shared by the ASTs of every parse (def-use wiring of the parser)
+    from .. import wirecheck as WC12
+    cur12 = WC12.current()
+    import re as _re12
+    mutable_globals = {}
+    for mn in ("c_parser", "ast_transforms"):
+        m_ = S.module(mn)
+        for name, sts in m_.assigns.items():
+            for st in sts:
+                v = getattr(st, "value", None)
+                if isinstance(v, (ast.List, ast.Dict, ast.Set, ast.ListComp, ast.DictComp, ast.SetComp)) or (isinstance(v, ast.Call) and isinstance(v.func, ast.Name) and v.func.id in ("dict", "list", "set", "defaultdict", "OrderedDict")):
+                    # entries: immutable when every value of the display is a plain constant (a table of numbers / strings)
+                    vals_ = (v.values if isinstance(v, ast.Dict) else v.elts if isinstance(v, (ast.List, ast.Set)) else [k_.value for k_ in v.keywords] + list(v.args) if isinstance(v, ast.Call) else [None])
+                    deep = not all(isinstance(x, ast.Constant) for x in vals_)
+                    mutable_globals[name] = (mn, deep)
+    n_g = 0
+    for meth, info in sorted(cur12.items()):
+        for lab, fa in info["records"]:
+            for f_, vals in fa.items():
+                for v in vals:
+                    for gname, sub in _re12.findall(r"global:([A-Za-z_]\w*)(\[)?", v):
+                        if gname not in mutable_globals:
+                            continue
+                        if sub and not mutable_globals[gname][1]:
+                            continue        # an ENTRY of a table of plain constants (a precedence number, a type name): immutable, sharing it is harmless
+                        n_g += 1
+                        ctx.oblige("R-C12.3", f"{meth}: {lab}.{f_} <- {v[:60]}", False)
+                        ctx.violation("R-C12.3", f"shared-global-in-tree:{gname}", f"{meth} builds the module-level mutable object `{gname}` (or an entry of it) into {lab}.{f_} (`{v[:80]}`): the object is created once, at import time, so the "
+                                      "trees of different parses - and of different parser instances - share it; editing one tree changes the others", file=S.module(mutable_globals[gname][0]).rel, function=meth)
+    ctx.oblige("R-C12.3", "no module-level mutable object flows into a node field or builder argument", n_g == 0, nontrivial=False)
     ctx.require_instances("R-C12.3", 80)
 
     # ---- R-C12.4 generator balance ------------------------------------------
